@@ -146,6 +146,8 @@ structure State where
   scanner : Scanner := {}           -- the scanner of the running Execute call (one object, shared by eexec)
   scannerDepth : Nat := 0           -- len(intp.scanners)
   dsc : List (String × String) := []
+  hiDepth : Nat := 0                -- ghost: highest execDepth reached
+  hiErrors : Nat := 0               -- ghost: highest number of pending errors reached
   deriving Repr, Inhabited
 
 namespace VM
